@@ -467,21 +467,43 @@ func (g *generator) walkEnum(schema *schemaparser.Schema) (ast.Type, error) {
 	}
 
 	// we only want to deal with string or int enums
-	enumType := ast.String()
-	if _, ok := schema.Enum[0].(string); !ok {
-		enumType = ast.NewScalar(ast.KindInt64)
+	// `null` listed among the values (`"enum": ["a", "b", null]`) is not a
+	// member: it makes the type nullable.
+	enumType := ast.NewScalar(ast.KindInt64)
+	for _, enumValue := range schema.Enum {
+		if enumValue == nil {
+			continue
+		}
+
+		if _, ok := enumValue.(string); ok {
+			enumType = ast.String()
+		}
+
+		break
 	}
 
+	nullable := false
 	values := make([]ast.EnumValue, 0, len(schema.Enum))
 	for _, enumValue := range schema.Enum {
+		if enumValue == nil {
+			nullable = true
+			continue
+		}
+
 		values = append(values, ast.EnumValue{
 			Type:  enumType,
 			Name:  fmt.Sprintf("%v", enumValue),
 			Value: unwrapJSONNumber(enumValue),
 		})
 	}
+	if len(values) == 0 {
+		return ast.Type{}, fmt.Errorf("enum with no values")
+	}
 
-	return ast.NewEnum(values, ast.Default(unwrapJSONNumber(schema.Default))), nil
+	def := ast.NewEnum(values, ast.Default(unwrapJSONNumber(schema.Default)))
+	def.Nullable = nullable
+
+	return def, nil
 }
 
 func (g *generator) walkObject(schema *schemaparser.Schema) (ast.Type, error) {
